@@ -551,7 +551,8 @@ Proof. reflexivity. Qed.
 
 Lemma run_var_env names es s : env_eq false anyerr (r_env s) (run_var rec names es s).
 Proof.
-  unfold run_var. apply eval_rhs_env; [imp_solve|reflexivity|]. intros rvs s1 H1. cbv zeta.
+  unfold run_var. destruct names as [|n0 nr]; [fin|]. destruct es as [|e0 er]; [fin|].
+  apply eval_rhs_env; [imp_solve|reflexivity|]. intros rvs s1 H1. cbv zeta.
   match goal with |- env_eq _ _ _ (match ?x with _ => _ end) => destruct x as [[[l off] n]|] end; [fin|].
   destruct (rev rvs); [exact I|fin].
 Qed.
